@@ -66,11 +66,19 @@ class World:
         self.meta = []           # dict(kind=call|lit|source, fn, litv, args, deps, store, is_src, writer_of)
         self.stores = []
         self.spec = spec
+        # in some worlds all stores are instances of ONE class, print alike and compare equal (a store is identified by the object,
+        # never by its class, repr, == or hash)
+        self.lookalike_stores = rng.random() < 0.3
+        self._store_cls = None
         self._build(maxn, writers)
 
     # ---- stores
     def _mkstore(self):
         w = self
+        if self._store_cls is not None:
+            st = self._store_cls()
+            self.stores.append(st)
+            return st
 
         class MemStore(w.uj.ValueStore):
             def __init__(s):
@@ -104,7 +112,15 @@ class World:
                 return 0 if s.sid % 3 == 1 else 1
 
             def __repr__(s):
-                return "MemStore(%d)" % s.sid
+                return "MemStore()" if w.lookalike_stores else "MemStore(%d)" % s.sid
+
+            def __eq__(s, other):
+                return (type(other) is type(s)) if w.lookalike_stores else s is other
+
+            def __hash__(s):
+                return 7 if w.lookalike_stores else id(s) >> 4
+        if self.lookalike_stores:
+            self._store_cls = MemStore
         st = MemStore()
         self.stores.append(st)
         return st
